@@ -4,6 +4,7 @@ EXTENDS MC_RemoteClient, Json
 Keys3 == {1, 2, 3}
 Tr == ndJsonDeserialize("impl.ndjson")
 Lines == 1..Len(Tr)
+ReqTimeoutMs == 2500      \* the configured request time-out of the harness client
 Steps == {i \in Lines : i > 1 /\ Tr[i].act.a # "init" /\ Tr[i].skip = ""}
 St(i) == [acc |-> Tr[i].st.acc, hs |-> Tr[i].st.hs, nextId |-> Tr[i].st.nextId, calls |-> [k \in Slots |-> Tr[i].st.calls[k + 1]],
           deliv |-> Tr[i].st.deliv, run |-> Tr[i].st.run, srv |-> Tr[i].st.srv, sent |-> [k \in Slots |-> Tr[i].st.seen[k + 1]]]
@@ -25,6 +26,8 @@ Bad == F("Correlated", {i \in Lines : ~CorrelatedL(i)})
   \cup F("FlushedWithHandshake", {i \in Steps : ~FlushP(St(i-1), St(i), Tr[i].act)})
   \cup F("AnsweredOnlyIfWritten", {i \in Lines : ~WrittenP(St(i))})
   \cup F("NothingElseDelivered", {i \in Steps : ~QuietP(St(i-1), St(i), Tr[i].act)})
+  \cup F("TimeoutOnTime", {i \in Lines : \E k \in 1..Len(Tr[i].st.lat) : Tr[i].st.lat[k] # -1 /\ (Tr[i].st.lat[k] < ReqTimeoutMs - 400 \/ Tr[i].st.lat[k] > ReqTimeoutMs + 1000)})
+  \cup F("RegisterFresh", {i \in Lines : ~Tr[i].st.regnew})
   \cup F("HandlersAgree", {i \in Lines : ~Tr[i].st.sameh})
   \cup F("NoPanic", {i \in Lines : Len(Tr[i].skip) >= 5 /\ SubSeq(Tr[i].skip, 1, 5) = "PANIC"})
 ASSUME JsonSerialize("props_result.json", [lines |-> Len(Tr), bad |-> Bad])
